@@ -593,6 +593,26 @@ func Run(tier string) int {
 	}
 	r.Dim("nesting_depths", []int{1, 2, 17, 100, 200, 250, 254, 255})
 
+	// (e) wide containers: many siblings of one kind in one array / dictionary
+	widths := []int{2, 16, 17, 255, 256, 257, 1000}
+	for _, n := range widths {
+		for ai, atom := range leafAtoms(100) {
+			a := make(pdf.Array, n)
+			d := pdf.Dict{}
+			for i := range a {
+				a[i] = hx.Clone(atom)
+				d[pdf.Name(fmt.Sprintf("K%d", i))] = hx.Clone(atom)
+			}
+			for _, opt := range plainPretty {
+				rn.one("wide", opt, a)
+				rn.one("wide", opt, d)
+				rn.one("wide", opt, pdf.Array{a, a})
+			}
+			r.DistinctS(fmt.Sprintf("w%d/%d", n, ai))
+		}
+	}
+	r.Dim("wide_containers", widths)
+
 	return r.Finish()
 }
 
